@@ -94,7 +94,8 @@ def _script(rnd, n, numeric):
     evs = []
     for _ in range(n):
         if rnd.random() < .2:
-            evs.append({'ev': 'ctl', 'blk': rnd.randint(1, 2), 'out': rnd.choice([-1001, 0, 1, 5, 901])})
+            evs.append({'ev': 'ctl', 'blk': rnd.randint(1, 2),
+                        'out': rnd.choice([0, 1, 5, 3] if numeric else [-1001, 0, 1, 5, 901])})
         else:
             evs.append({'ev': 'send', 'data': _rand_data(rnd, numeric)})
     return evs
@@ -142,7 +143,8 @@ def stimuli(tier, seed, ctx):
         numeric = any(f['k'] == 'delta' for f in fs)
         pre = _script(rnd, rnd.randint(0, 4), numeric) if any(f['k'] == 'ifnotinit' for f in fs) else []
         out.append(_stim(fs, pre, _script(rnd, rnd.randint(3, 10), numeric),
-                         (rnd.choice([0, 1, 5]), rnd.choice([0, -1001, 901]))))
+                         # (Delta is documented for numeric values only: no non-numeric control outputs then)
+                         (rnd.choice([0, 1, 5]), rnd.choice([0, 2, 3] if numeric else [0, -1001, 901]))))
     return out
 
 
